@@ -123,6 +123,37 @@ def gen_cursor_sweep(k, pos, f):
     return b.finish()
 
 
+def gen_restored(k, f, pos, rollout=False):
+    """a proxy RESTART: k targets deployed, `pos` requests, restart (balancers restored from the state file: every target presumed
+    healthy until its first probe), then target f refuses two probes and recovers; bursts before / during / after: the restored
+    rotation is all targets, a failing one leaves it, a recovered one returns, strict rotation throughout.  With `rollout`: the
+    service also has rollout targets and a split that includes every cookie value; requests carry the cookie."""
+    b = c01.Builder(random.Random(k * 1000 + f * 100 + pos * 10 + int(rollout)))
+    b.meta["shape"] = {"mix": "restored", "k": k, "fails": f, "pos": pos, "rollout": rollout}
+    host, name = b"a.example.com", b"web"
+    b.deploy(name, host, [["ok"] for _ in range(k)], 5 * SEC, 500 * MS, async_=False)
+    cookie = None
+    if rollout:
+        b.deploy(name, host, [["ok"] for _ in range(k)], 5 * SEC, 500 * MS, async_=False, rollout=True)
+        b.steps.append({"op": "rollout_set", "id": b.cmd(), "name": H(name), "pct": 100, "allow": []})
+        cookie = b"alice"
+    for _ in range(pos):
+        b.request(host, "burst", cookie=cookie)
+    b.sleep(0)
+    b.steps.append({"op": "restart", "id": "x1"})
+    tn = b.meta["deploys"][-1]["targets"][f]
+    b.steps.append({"op": "probe_script", "targets": [{"name": H(tn.encode()), "probes": ["refused", "refused", "ok"]}]})
+    for _ in range(2 * k + 1):
+        b.request(host, "burst", cookie=cookie)
+    b.sleep(1 * SEC + 100 * MS)
+    for _ in range(2 * k + 1):
+        b.request(host, "burst", cookie=cookie)
+    b.sleep(2 * SEC)
+    for _ in range(3 * k + 1):
+        b.request(host, "burst", cookie=cookie)
+    return b.finish()
+
+
 def gen_d12(rnd, variant):
     """Drains with probes in between (suspected defect D12): pause with hanging requests."""
     b = c01.Builder(rnd)
@@ -209,8 +240,8 @@ def run(tier, seed):
     res = Result("C09", tier, seed)
     work = Work("C09")
     try:
-        ok, blog = coq_build(["props/C09.vo", "corr/C01corr.vo", "corr/C09corr.vo"])
-        proofs_ok, pa = proof_obligations(work, res, "C09.v", ok, blog)
+        ok, blog = coq_build(["props/C09.vo", "props/C01restore.vo", "corr/C01corr.vo", "corr/C09corr.vo", "corr/C09rot.vo"])
+        proofs_ok, pa = proof_obligations_multi(work, res, ["C09.v", "C01restore.v"], ok, blog)
         gate = coq_gate()
         if gate:
             proofs_ok = False
@@ -226,6 +257,11 @@ def run(tier, seed):
                                                                  "delta": [0, 0, -1, 1][i % 4], "again": False})
                for i in range(8 if tier == "quick" else 64)]
         sm += [gen_cursor_sweep(k, pos, f) for k in ((2, 3) if tier == "quick" else (2, 3, 4, 5)) for pos in range(k + 1) for f in range(k)]
+        # restarts: restored balancers (model/M5lb.v rule KRestored; theorems props/C01restore.v)
+        if m5.RESTORE_EVENTS:
+            sm += [gen_restored(k, f, pos, ro) for (k, f, pos, ro) in
+                   ([(3, 0, 1, False), (2, 1, 0, False), (3, 1, 2, True)] if tier == "quick" else
+                    [(k, f, pos, ro) for k in (2, 3, 4) for f in range(k) for pos in (0, 1, k) for ro in (False, True)])]
         scenarios = [s for s, _ in sm]
         metas = [m for _, m in sm]
         rand = m5lb.random_scenarios(rnd, n_random, PROFILES, 8, 25)
@@ -246,8 +282,8 @@ def run(tier, seed):
             if harness_ok and ok:
                 terms = ["(%s, (%d)%%N, %s)" % (bounds_term(o, pts[j]), o["t_end"], m5.trace_term(o["events"])) for j, o in enumerate(outs)]
                 expr = ("fun x => match x with (bd, te, tr) => (reject_at tr, c09_fail_at tr, c09_rebuild_fail_at tr, c09_restore_at tr, "
-                        "c01_fail_at tr, c09_cadence bd (6000000000)%N te tr, c09_counts tr, c09_unprobed_claim_at tr) end")
-                rows = m4x.coq_map(work, m5lb.IMPORTS, "", terms, expr, tag, shard=5)
+                        "c01_fail_at tr, c09_cadence bd (6000000000)%N te tr, c09_counts tr, c09_unprobed_claim_at tr, c09_rot_fail_at tr) end")
+                rows = m4x.coq_map(work, m5lb.IMPORTS + "From KP Require Import corr.C09rot.\n", "", terms, expr, tag, shard=5)
                 src = next((o for o in outs if sum(1 for e in o["events"] if e["kind"] == "claim") >= 2 and
                             any(e["kind"] == "lb-new" and len(e["args"][1]) >= 2 for e in o["events"])), None) if self_test else None
                 if src is not None:
@@ -259,7 +295,7 @@ def run(tier, seed):
             rejected, mon_fail, e2e, known, drains = [], [], [], [], []
             cnts = [0, 0, 0, 0]
             for j, r in enumerate(rows):
-                rej, mon, reb, rest, m1, cad, cnt, unp = r
+                rej, mon, reb, rest, m1, cad, cnt, unp, rot = r
                 for q in range(4):
                     cnts[q] += cnt[q]
                 if mon is not None:
@@ -271,6 +307,9 @@ def run(tier, seed):
                     mon_fail.append((j, "c09_rebuild_ok", reb[1]))
                 elif m1 is not None:
                     mon_fail.append((j, "c01_ok", m1[1]))
+                elif rot is not None:
+                    mon_fail.append((j, "c09_rot_ok (a rebuilt rotation is not exactly the balancer's healthy targets, each once, in the "
+                                        "balancer's order: a healthy target left out, or a target listed twice)", rot[1]))
                 elif unp is not None:
                     mon_fail.append((j, "c09_unprobed_claim (a request was sent to a target whose probe loop has been stopped while "
                                         "its balancer is still in service)", unp[1]))
@@ -306,7 +345,7 @@ def run(tier, seed):
                     ev[key] = [x for x in ev[key] if x[0] != j]
         searched = 0
         if ev["rejected"] and not ev["mon_fail"] and not ev["e2e"]:
-            rshapes = [metas[j]["shape"] for j, _ in ev["rejected"] if metas[j] is not None and "k" in metas[j]["shape"]] or shapes[:8]
+            rshapes = [metas[j]["shape"] for j, _ in ev["rejected"] if metas[j] is not None and "ticks" in metas[j]["shape"]] or shapes[:8]
             rnd2 = random.Random(seed * 7919 + 1)
             sm2 = [gen_scenario(rnd2, rshapes[i % len(rshapes)]) for i in range(32 if tier == "quick" else 200)]
             ev2 = evaluate([x for x, _ in sm2], [m for _, m in sm2], "C09s", False)
@@ -368,7 +407,8 @@ def run(tier, seed):
             "(refusal by a draining target, the 503 mapping) belongs to C02's view",
             "the probe cadence (a result within interval + probe timeout of the previous one) is a monitor on the observed times only, "
             "evaluated on scenarios that do not park probe goroutines",
-            "restart (a router restored from the state file) is outside the acceptor: such traces are not generated here",
+            "restarts are inside the acceptor (rule KRestored of model/M5lb.v, hook event 'restored'): restored balancers are generated in the "
+            "'restored' family; an old-process command still running across a restart is not modelled",
         ]
 
         def payload(j, what, extra):
